@@ -173,7 +173,7 @@ fn fixtures(env: &mut Env) -> &'static Fixtures {
     })
 }
 
-const PRIORS: [&str; 12] = ["absent", "current", "other-version", "other-data", "meta-missing", "meta-empty", "meta-braces", "meta-array", "meta-garbage", "index-missing", "index-without-tantivy-meta", "other-hash"];
+const PRIORS: [&str; 14] = ["other-patch-version-other-index", "other-build-suffix-other-index", "absent", "current", "other-version", "other-data", "meta-missing", "meta-empty", "meta-braces", "meta-array", "meta-garbage", "index-missing", "index-without-tantivy-meta", "other-hash"];
 
 fn make_prior(fx: &Fixtures, prior: &str, data: &Path) {
     let cur = fx.root.join("tpl-current/data");
@@ -184,6 +184,24 @@ fn make_prior(fx: &Fixtures, prior: &str, data: &Path) {
             std::fs::create_dir_all(data).unwrap();
         }
         "other-data" => copy_dir(&fx.root.join("tpl-other/data"), data),
+        "other-patch-version-other-index" | "other-build-suffix-other-index" => {
+            // written by another version of the same release series: an index with other content
+            // under a meta.json that carries the current data hash but another version string
+            copy_dir(&fx.root.join("tpl-other/data"), data);
+            let mut m: serde_json::Value = serde_json::from_str(&fx.current_meta).unwrap();
+            let v = m["version"].as_str().unwrap_or("0.0.0").to_string();
+            let other = if prior.starts_with("other-patch") {
+                let mut parts: Vec<String> = v.split('.').map(|s| s.to_string()).collect();
+                let last = parts.len() - 1;
+                let n: u64 = parts[last].chars().take_while(|c| c.is_ascii_digit()).collect::<String>().parse().unwrap_or(0);
+                parts[last] = format!("{}", n + 1);
+                parts.join(".")
+            } else {
+                format!("{v}-rc1")
+            };
+            m["version"] = serde_json::Value::String(other);
+            std::fs::write(&meta, serde_json::to_string(&m).unwrap()).unwrap();
+        }
         p => {
             copy_dir(&cur, data);
             match p {
@@ -242,7 +260,7 @@ impl Prop for C15 {
         120
     }
     fn rule(&self) -> String {
-        "prior directory states: absent; complete and current; written by another version; written for other data (built by the real code through the asset seam); other hash; meta.json missing / empty / {} / [] / garbage / every proper prefix of the valid bytes; index directory missing under a current meta.json; index directory without tantivy's own meta.json. Each prior state x two crash-free starts (family start). Crash enumeration (family crash): prior state x every crash point N = 1..N_max of the real start under the LD_PRELOAD shim (process SIGKILLed before its N-th file-system mutation; quick: absent, other-data, index-missing and index-without-tantivy-meta priors, every point; thorough: eight priors, every point, each write also torn after half and after all-but-one byte), then: meta.json current => index complete (opened independently with tantivy), then two crash-free starts that must answer the probe set exactly like Db::in_memory(). Thorough adds second crashes (15 representative points) on every 10th first-level crash state. Non-trivial = the start performed at least one mutation before it was killed / a prior state other than `current`; distinct = distinct (prior, N, torn)".into()
+        "prior directory states: absent; complete and current; written by another version (a foreign major version; the next patch version or a build suffix over an index with other content and the current data hash); written for other data (built by the real code through the asset seam); other hash; meta.json missing / empty / {} / [] / garbage / every proper prefix of the valid bytes; index directory missing under a current meta.json; index directory without tantivy's own meta.json. Each prior state x two crash-free starts (family start). Crash enumeration (family crash): prior state x every crash point N = 1..N_max of the real start under the LD_PRELOAD shim (process SIGKILLed before its N-th file-system mutation; quick: absent, other-data, index-missing and index-without-tantivy-meta priors, every point; thorough: eight priors, every point, each write also torn after half and after all-but-one byte), then: meta.json current => index complete (opened independently with tantivy), then two crash-free starts that must answer the probe set exactly like Db::in_memory(). Thorough adds second crashes (15 representative points) on every 10th first-level crash state. Non-trivial = the start performed at least one mutation before it was killed / a prior state other than `current`; distinct = distinct (prior, N, torn)".into()
     }
     fn assumptions(&self) -> Vec<String> {
         vec![
